@@ -19,6 +19,7 @@ type ProtoEntry struct {
 	Src string
 	Msg proto.Message // nil: bytes that do not parse
 	Len int64
+	JSON bool // the bytes are the protojson text of Msg, not its wire encoding
 }
 
 var Protos []*ProtoEntry
@@ -46,12 +47,39 @@ func Proto_Unmarshal(b []byte, m proto.Message) error {
 		// the empty message
 		return nil
 	}
+	return unmarshalAs(b, m, false)
+}
+
+// RegisterJSON: bytes [0,n) of content source src are the protojson text of m.
+func RegisterJSON(src string, m proto.Message, n int64) {
+	Protos = append(Protos, &ProtoEntry{Src: src, Msg: m, Len: n, JSON: true})
+}
+
+// protojson: the same identity model; wire bytes are not JSON text and the
+// other way round. The empty input is not a JSON value.
+func Protojson_Unmarshal(b []byte, m proto.Message) error {
+	if len(b) == 0 {
+		return ErrProto
+	}
+	return unmarshalAs(b, m, true)
+}
+
+func Protojson_Marshal(m proto.Message) ([]byte, error) {
+	b, err := Proto_Marshal(m)
+	if err == nil {
+		Protos[len(Protos)-1].JSON = true
+		Marshalled[len(Marshalled)-1].JSON = true
+	}
+	return b, err
+}
+
+func unmarshalAs(b []byte, m proto.Message, json bool) error {
 	src, off, ok := vsym.Prov(b)
 	if !ok || off != 0 {
 		return ErrProto
 	}
 	e := lookupProto(src)
-	if e == nil || e.Msg == nil {
+	if e == nil || e.Msg == nil || e.JSON != json {
 		return ErrProto
 	}
 	if int64(len(b)) != e.Len {
@@ -120,6 +148,7 @@ type MarshalRec struct {
 	Msg  proto.Message
 	Snap proto.Message // snapshot at the time of the call (ActionResult only)
 	Len  int64
+	JSON bool
 }
 
 var Marshalled []*MarshalRec
